@@ -144,8 +144,25 @@ def run(check):
            (isinstance(x, ast.alias) and x.name == sc.name) or (isinstance(x, ast.Constant) and x.value == sc.name):
           return False
     return True
+  def delegated_to(sc, gen):
+    """the generator method is only a part of another generator of the class hierarchy (`yield from self.part()`): its
+    statements are judged where they were spliced in"""
+    for k in repo.mro(sc):
+      if isinstance(k, tuple):
+        continue
+      for m_ in k.methods.values():
+        if m_ is gen or isinstance(m_.node, ast.Lambda):
+          continue
+        if not any(isinstance(x, (ast.Yield, ast.YieldFrom)) for x in walk_no_nested(m_.node, include_self=False)):
+          continue
+        for c in walk_no_nested(m_.node, include_self=False):
+          if isinstance(c, ast.Call) and isinstance(c.func, ast.Attribute) and c.func.attr == gen.name and dotted(c.func.value) == 'self':
+            return True
+    return False
   for sc, gen in gens:
     check.analysed(gen)
+    if gen.cls is sc and gen.parent_fn is None and delegated_to(sc, gen):
+      continue
     if never_instantiated(sc) and any(isinstance(c, ast.Call) and isinstance(c.func, ast.Attribute) and dotted(c.func.value) == 'self' and
                                      len({id(repo.find_method(k, c.func.attr)) for k in [sc] + list(repo.subclasses(sc))}) > 1
                                      for c in ast.walk(gen.node)):
